@@ -332,7 +332,75 @@ def case_subsample_env(col, p):
     col.distinct('nontrivial', ('subsample_env', calls, nsub, rows, p['missing']))
 
 
-CASES = {'subsample_env': case_subsample_env, 'partitions': case_partitions, 'matrices': case_matrices, 'correction': case_correction}
+class _SameShuffleRng(object):
+    """random source that answers every shuffling request with one and the same column permutation (index `which` in lexicographic order)"""
+    def __init__(self, which):
+        self.which = which
+
+    def permuted(self, a, axis=None, out=None):
+        a = np.array(a)
+        assert axis == 1 and a.ndim == 2
+        perms = list(itertools.permutations(range(a.shape[1])))
+        return a[:, list(perms[self.which % len(perms)])]
+
+    def __getattr__(self, name):
+        raise AttributeError('environment stub: random primitive %r is not modelled' % name)
+
+
+def case_simulated_weights(col, p):
+    """the simulated regime made deterministic: deep coverage (every genotype called correctly) and the subsampling shuffle answered by one fixed
+    permutation, for EVERY permutation.  The simulated calling outcome for an allele count is then the partition law of that count (at the
+    population's inbreeding coefficient - exact reference as in the partition case) pushed through 'keep these n_sub/2 individuals'."""
+    from dadi.LowPass import LowPass as LP
+    nseq, nsub, F = p['nseq'], p['nsub'], p['F']
+    nind, k = nseq // 2, nsub // 2
+    covs = coverage_alphabet()
+    cov = {'pop0': covs['point80']}
+    nsim = 200003
+    old = LP.rng
+    cnt = 0
+    try:
+        for a in range(1, nseq):
+            parts = sorted(set(tuple(sorted(v)) for v in itertools.product((0, 1, 2), repeat=nind) if sum(v) == a))
+            ex_w = []
+            for part in parts:
+                n0, n1, n2 = part.count(0), part.count(1), part.count(2)
+                ways = Fraction(factorial(nind), factorial(n0) * factorial(n1) * factorial(n2))
+                if F == 0:
+                    ex_w.append(ways * 2 ** n1)
+                else:
+                    Ff = Fraction(float(F))
+                    pp = Fraction(a, nseq)
+                    al, be = pp * (1 - Ff) / Ff, (1 - pp) * (1 - Ff) / Ff
+                    ex_w.append(ways * bb2(0, al, be) ** n0 * bb2(1, al, be) ** n1 * bb2(2, al, be) ** n2)
+            tot = sum(ex_w)
+            nperm = len(list(itertools.permutations(range(nind))))
+            for which in range(nperm):
+                LP.rng = _SameShuffleRng(which)
+                np.random.seed(3)
+                got = np.asarray(LP.simulate_GATK_multisample_calling(cov, [a], [nseq], [nsub], nsim, [F]), dtype=float)
+                col.tick(transitions=1)
+                cnt += 1
+                perm = list(itertools.permutations(range(nind)))[which]
+                ex = np.zeros(nsub + 1)
+                for part, w in zip(parts, ex_w):
+                    g = sorted(part)
+                    j = sum(g[perm[i]] for i in range(k)) if nsub != nseq else sum(g)
+                    ex[j] += float(w / tot)
+                # every partition contributes int(nsim * probability) loci: rounding of at most one locus per partition
+                tol = 2.0 * (len(parts) + 1) / nsim + 1e-6
+                if got.shape != ex.shape or not float(np.abs(got - ex).max()) <= tol:
+                    col.violation('C18:simulated_regime:outcome_weights', dict(p, allele_count=a, shuffle=which),
+                                  {'got': got, 'exp': ex, 'tol': tol})
+                else:
+                    col.observe('simulated_weights', float(np.abs(got - ex).max()) / tol)
+    finally:
+        LP.rng = old
+    col.tick(states=cnt, traces=cnt)
+    col.distinct('nontrivial', ('simulated_weights', nseq, nsub, F))
+
+
+CASES = {'simulated_weights': case_simulated_weights, 'subsample_env': case_subsample_env, 'partitions': case_partitions, 'matrices': case_matrices, 'correction': case_correction}
 
 
 def _dispatch(col, case):
@@ -374,6 +442,9 @@ def run(ctx):
         for pre in ('mix0_4', 'uniform0_10'):
             cases.append({'kind': 'correction', 'nseq': nseq, 'nsub': nsub, 'F': [0] * len(nseq), 'sim_threshold': 1e-2, 'coverage': 'point80', 'seed': ctx.seed,
                           'prehistory': pre})
+    for nseq_, nsub_ in ((4, 2), (6, 2), (6, 4), (6, 6), (8, 4)):
+        for F in (0, 0.3, 0.9):
+            cases.append({'kind': 'simulated_weights', 'nseq': nseq_, 'nsub': nsub_, 'F': F})
     # the simulated regime after another coverage distribution was simulated for the same population names in this process
     for nseq, nsub in (((4,), (2,)), ((6,), (4,)), ((4, 2), (2, 2))):
         for pre in ('point1', 'uniform0_3', 'mix0_4'):
